@@ -188,6 +188,10 @@ Ref(R, i) == IF i = 0 THEN Z(4) ELSE R[i]
 Proc_Init(a, R) == [flags |-> {}, parent |-> Ref(R, a.parent), id |-> a.id, res |-> <<>>]
 Proc_Call(s, c, R) ==
   CASE c.o = "add_cache" -> [s EXCEPT !.res = Append(@, Ref(R, c.a.ref))]
+    \* the three public fields can also be assigned directly
+    [] c.o = "set_flags" -> [s EXCEPT !.flags = BitSet(c.a.v)]
+    [] c.o = "set_parent" -> [s EXCEPT !.parent = c.a.v]
+    [] c.o = "set_id" -> [s EXCEPT !.id = c.a.v]
     [] OTHER -> [s EXCEPT !.flags = @ \cup (CASE c.o = "physical" -> {0} [] c.o = "valid" -> {1} [] c.o = "thread" -> {2}
                                               [] c.o = "leaf" -> {3} [] c.o = "identical" -> {4})]
 Proc_Lay(s) == <<K(<<0>>), N("length", <<20 + 4 * Len(s.res)>>), K(Z(2)), N("flags", BitsLE(s.flags, 4)),
